@@ -615,10 +615,20 @@ func genEthTx(t *rapid.T, st *genState) TxSpec {
 			// modexp reads three 32-byte lengths (base, exponent, modulus) before its operands: zero,
 			// tiny, word-sized and absurd lengths in every position, operands short or missing
 			lens := []uint64{0, 0, 1, 2, 31, 32, 33, 64, 200, 1 << 31, 1 << 32, 1 << 62, 1<<63 - 1, 1 << 63, math.MaxUint64}
+			// one case in three: the combination that costs no gas whatever the exponent length
+			// says (base and modulus empty)
+			freeShape := pick(t, "modexpFree", 2, 1) == 1
 			var d []byte
 			for i := 0; i < 3; i++ {
 				w := make([]byte, 32)
 				v := rapid.SampledFrom(lens).Draw(t, "modexpLen")
+				if freeShape {
+					if i == 1 {
+						v = rapid.SampledFrom([]uint64{1 << 31, 1 << 40, 1 << 62, 1<<63 - 1, 1 << 63, math.MaxUint64, 33}).Draw(t, "modexpFreeExp")
+					} else {
+						v = 0
+					}
+				}
 				for k := 0; k < 8; k++ {
 					w[31-k] = byte(v >> (8 * uint(k)))
 				}
